@@ -212,6 +212,28 @@ def gen_advan_programs():
         'des[transit]': (['KTR = THETA(1)', 'CL = THETA(2)*EXP(ETA(1))', 'V = THETA(3)', 'S3 = V'],
                          ['DADT(1) = -KTR*A(1)', 'DADT(2) = KTR*A(1) - KTR*A(2)', 'DADT(3) = KTR*A(2) - CL/V*A(3)'],
                          'COMP=(DEPOT DEFDOSE) COMP=(TRANSIT1) COMP=(CENTRAL DEFOBS)'),
+        # several terms between one pair of compartments, written in different ways
+        'des[parallel]': (['KAF = THETA(1)', 'KAS = THETA(2)', 'CL = THETA(3)*EXP(ETA(1))', 'V = THETA(4)', 'S2 = V'],
+                          ['DADT(1) = -KAF*A(1) - KAS*A(1)', 'DADT(2) = KAF*A(1) + KAS*A(1) - CL/V*A(2)'],
+                          'COMP=(DEPOT DEFDOSE) COMP=(CENTRAL DEFOBS)'),
+        'des[factored]': (['KAF = THETA(1)', 'KAS = THETA(2)', 'CL = THETA(3)*EXP(ETA(1))', 'V = THETA(4)', 'S2 = V'],
+                          ['DADT(1) = -(KAF+KAS)*A(1)', 'DADT(2) = (KAF+KAS)*A(1) - CL/V*A(2)'],
+                          'COMP=(DEPOT DEFDOSE) COMP=(CENTRAL DEFOBS)'),
+        'des[covfactor]': (['KA = THETA(1)', 'CL = THETA(2)*EXP(ETA(1))', 'V = THETA(3)', 'S2 = V'],
+                           ['DADT(1) = -KA*A(1)*(1+WGT)', 'DADT(2) = KA*A(1)*(1+WGT) - CL/V*A(2)'],
+                           'COMP=(DEPOT DEFDOSE) COMP=(CENTRAL DEFOBS)'),
+        'des[two_elim]': (['CL = THETA(1)*EXP(ETA(1))', 'CLR = THETA(2)', 'V = THETA(3)', 'S1 = V'],
+                          ['DADT(1) = -CL/V*A(1) - CLR/V*A(1)'], 'COMP=(CENTRAL DEFDOSE DEFOBS)'),
+        'des[mm+lin]': (['VM = THETA(1)', 'KM = THETA(2)', 'CL = THETA(3)', 'V = THETA(4)*EXP(ETA(1))', 'S1 = V'],
+                        ['DADT(1) = -VM*A(1)/V/(KM + A(1)/V) - CL/V*A(1)'], 'COMP=(CENTRAL DEFDOSE DEFOBS)'),
+        'des[split_to_two]': (['KA = THETA(1)', 'FR = THETA(2)/(1+THETA(2))', 'K20 = THETA(3)*EXP(ETA(1))', 'K30 = THETA(4)',
+                               'S2 = THETA(5)'],
+                              ['DADT(1) = -KA*A(1)', 'DADT(2) = FR*KA*A(1) - K20*A(2)', 'DADT(3) = (1-FR)*KA*A(1) - K30*A(3)'],
+                              'COMP=(DEPOT DEFDOSE) COMP=(CENTRAL DEFOBS) COMP=(SIDE)'),
+        'des[back_and_forth2]': (['K12 = THETA(1)', 'K21 = THETA(2)', 'K21B = THETA(3)', 'K10 = THETA(4)*EXP(ETA(1))', 'S1 = THETA(5)'],
+                                 ['DADT(1) = -K10*A(1) - K12*A(1) + K21*A(2) + K21B*A(2)',
+                                  'DADT(2) = K12*A(1) - K21*A(2) - K21B*A(2)'],
+                                 'COMP=(CENTRAL DEFDOSE DEFOBS) COMP=(PERIPHERAL)'),
     }
     for name, (pk, des, model) in des_cases.items():
         for adv in ('ADVAN6', 'ADVAN13'):
